@@ -78,7 +78,7 @@ func vhE1Poll(ch chan tmdriver.FinalizeBlockRequest) (tmdriver.FinalizeBlockRequ
 	select {
 	case r := <-ch:
 		return r, true
-	case <-time.After(400 * time.Millisecond):
+	case <-time.After(1500 * time.Millisecond):
 		return tmdriver.FinalizeBlockRequest{}, false
 	}
 }
